@@ -172,7 +172,7 @@ def _opts(rng, levels, hostile=False):
     return o
 
 
-def gen(rng, kind, tier):
+def _gen(rng, kind, tier):
     dim = int(rng.choice([1, 2, 2, 2, 3]))
     spec = _grid(rng, dim)
     fam = spec["family"]
@@ -237,6 +237,20 @@ def gen(rng, kind, tier):
     raise ValueError(kind)
 
 
+PREVIEWS = [{"least_squares_params": {"max_nfev": 3}}, {"least_squares_params": {"ftol": 1e-1, "xtol": 1e-1}},
+            {"least_squares_params": {"method": "dogbox", "max_nfev": 5}}, {"tolerance": 1e-1},
+            {"vmin": None, "vmax": None, "adjust_values": True}]
+
+
+def gen(rng, kind, tier):
+    case = _gen(rng, kind, tier)
+    if case is not None and rng.random() < 0.1:
+        # an earlier refinement of the same candidate with other options (its outcome is not judged):
+        # earlier calls must not influence later ones
+        case["preview"] = PREVIEWS[int(rng.integers(len(PREVIEWS)))]
+    return case
+
+
 # ------------------------------------------------------------------ oracle
 
 
@@ -284,6 +298,10 @@ def run(case, rec):
     cand_copy = cand.copy()
     opts = {k: (dict(v) if isinstance(v, dict) else v) for k, v in case["opts"].items()}
 
+    if case.get("preview"):
+        pk = {**opts, **{k: (dict(v) if isinstance(v, dict) else v) for k, v in case["preview"].items()}}
+        common.monitored(rec, "preview:refine_droplet", refine_droplet, field, cand.copy(), **pk)  # not judged
+        rec.count("preceded_by_a_call_with_other_options")
     with monitors.optimize_proxy() as proxy:
         call = common.monitored(rec, "refine_droplet", refine_droplet, field, cand, **opts)
     rec.hit("proxy:least_squares", len(proxy.calls))
